@@ -210,6 +210,9 @@ pub struct XzBlock {
     pub hsize_byte: Option<u8>,
     /// value of a header padding byte (None = 0)
     pub hpad_byte: Option<u8>,
+    /// non-zero padding pattern id (1..4, see `pad_pattern`) for header / block padding
+    pub hpad_pat: u8,
+    pub bpad_pat: u8,
     pub hcrc_xor: u32,
     pub bpad_byte: Option<u8>,
     /// number of block padding bytes (None = correct)
@@ -233,6 +236,10 @@ pub struct XzFile {
     /// override (record index, which: 0 unpadded / 1 unpacked, value)
     pub idx_rec: Option<(usize, u8, u64)>,
     pub idx_pad_byte: Option<u8>,
+    pub idx_pad_pat: u8,
+    /// OR-ed into the second stream-flags byte of the header / footer (reserved high nibble)
+    pub hflags1_or: u8,
+    pub fflags1_or: u8,
     pub idx_crc_xor: u32,
     pub backward: Option<u32>,
     pub fflags0: u8,
@@ -242,6 +249,31 @@ pub struct XzFile {
     pub trailing: Vec<u8>,
     /// use non-minimal varint encodings of this many extra bytes for index sizes
     pub varint_pad: usize,
+}
+
+/// Concrete ways for a padding field of `n` bytes to be "not all zero":
+/// 1: last byte 1; 2: first byte 0x80; 3: every byte 0x41 (XOR-cancels for even n);
+/// 4: bytes 1,2,3,... (1^2^3 = 0 for n = 3).  Returns false when n = 0 (not expressible).
+pub fn pad_pattern(pad: &mut [u8], pat: u8) -> bool {
+    let n = pad.len();
+    if n == 0 || pat == 0 {
+        return false;
+    }
+    match pat {
+        1 => pad[n - 1] = 1,
+        2 => pad[0] = 0x80,
+        3 => {
+            for b in pad.iter_mut() {
+                *b = 0x41;
+            }
+        }
+        _ => {
+            for (i, b) in pad.iter_mut().enumerate() {
+                *b = (i + 1) as u8;
+            }
+        }
+    }
+    true
 }
 
 pub fn check_bytes(id: u8, content: &[u8], xor: u64) -> Vec<u8> {
@@ -284,7 +316,7 @@ impl XzFile {
         magic[0] ^= self.hmagic_xor;
         o.extend_from_slice(&magic);
         mark("hmagic", 0, 6);
-        let flags = [self.hflags0, self.hcheck_override.unwrap_or(self.check)];
+        let flags = [self.hflags0, self.hcheck_override.unwrap_or(self.check) | self.hflags1_or];
         o.extend_from_slice(&flags);
         mark("hflags", 6, 8);
         o.extend_from_slice(&(crc32(&flags) ^ self.hcrc_xor).to_le_bytes());
@@ -329,6 +361,9 @@ impl XzFile {
                     pad[padlen - 1] = pb;
                 }
             }
+            // for long paddings only the first 3 bytes carry the pattern (keeps it a "padding" fault)
+            let pl = padlen.min(3);
+            pad_pattern(&mut pad[..pl], b.hpad_pat);
             let szb = b.hsize_byte.unwrap_or((hsize / 4 - 1) as u8);
             let mut hdr = vec![szb];
             hdr.extend_from_slice(&h);
@@ -344,9 +379,12 @@ impl XzFile {
             let unp = o.len() - start;
             let padn = b.bpad_len.unwrap_or((4 - unp % 4) % 4);
             let pstart = o.len();
-            for i in 0..padn {
-                o.push(if i == padn - 1 { b.bpad_byte.unwrap_or(0) } else { 0 });
+            let mut bp = vec![0u8; padn];
+            if padn > 0 {
+                bp[padn - 1] = b.bpad_byte.unwrap_or(0);
             }
+            pad_pattern(&mut bp, b.bpad_pat);
+            o.extend_from_slice(&bp);
             mark(&format!("b{}.pad", bi), pstart, o.len());
             let cs = o.len();
             o.extend_from_slice(&check_bytes(self.check, &b.content, b.check_xor));
@@ -372,9 +410,12 @@ impl XzFile {
             idx.extend_from_slice(&self.pad_varint(b));
         }
         let ipad = (4 - idx.len() % 4) % 4;
-        for i in 0..ipad {
-            idx.push(if i == ipad - 1 { self.idx_pad_byte.unwrap_or(0) } else { 0 });
+        let mut ip = vec![0u8; ipad];
+        if ipad > 0 {
+            ip[ipad - 1] = self.idx_pad_byte.unwrap_or(0);
         }
+        pad_pattern(&mut ip, self.idx_pad_pat);
+        idx.extend_from_slice(&ip);
         let icrc = crc32(&idx) ^ self.idx_crc_xor;
         o.extend_from_slice(&idx);
         o.extend_from_slice(&icrc.to_le_bytes());
@@ -385,7 +426,7 @@ impl XzFile {
         let bw = self.backward.unwrap_or((index_size / 4 - 1) as u32);
         let mut f = bw.to_le_bytes().to_vec();
         f.push(self.fflags0);
-        f.push(self.fcheck.unwrap_or(self.check));
+        f.push(self.fcheck.unwrap_or(self.check) | self.fflags1_or);
         let fcrc = crc32(&f) ^ self.fcrc_xor;
         let fs = o.len();
         o.extend_from_slice(&fcrc.to_le_bytes());
